@@ -7,7 +7,7 @@ import build, ir, llsym
 ap = argparse.ArgumentParser()
 ap.add_argument('harness'); ap.add_argument('entry'); ap.add_argument('--src', default=''); ap.add_argument('--params', default='')
 ap.add_argument('--out', default='/tmp/vp_dev'); ap.add_argument('--maxpaths', type=int, default=10**9)
-ap.add_argument('--env', default='vlibc.c'); ap.add_argument('--profile', action='store_true'); ap.add_argument('--nobuild', action='store_true')
+ap.add_argument('--env', default='vlibc.c'); ap.add_argument('--profile', action='store_true'); ap.add_argument('--nobuild', action='store_true'); ap.add_argument('--simp', action='store_true')
 a = ap.parse_args()
 t0 = time.time()
 linked = a.out + '/linked.ll'
@@ -17,6 +17,7 @@ t1 = time.time()
 mod = ir.parse_module(open(linked).read())
 t2 = time.time()
 eng = llsym.Engine(mod, params=[int(x) for x in a.params.split(',') if x])
+eng.simp = a.simp
 eng.prepare('@' + a.entry)
 t3 = time.time()
 def go():
